@@ -46,6 +46,10 @@ type c14Case struct {
 	// Batch: Counts() is read after every Batch-th Add (and before every
 	// checkpoint) instead of after every Add; 0 and 1 mean every Add.
 	Batch int `json:"batch"`
+	// NoInit: the harness does not read Counts() of the fresh histogram; the
+	// first read comes after the first batch of Adds and is judged against
+	// the all-zero start (a fresh histogram is empty by definition).
+	NoInit bool `json:"noinit"`
 	// fake
 	Under  uint64   `json:"under"`
 	Counts []uint64 `json:"counts"`
@@ -447,11 +451,37 @@ func c14JudgeHist(w *mon.W, c c14Case) {
 		w.Violate("panic-new", fmt.Sprintf("%s panicked: %v", desc, v), base)
 		return
 	}
-	cur, p, pv := c14Snap(h)
-	w.Eval(op + ".Counts")
-	if p {
-		w.Violate("panic-counts", fmt.Sprintf("%s.Counts() panicked: %v", desc, pv), base)
-		return
+	// The start state. Normally read from the fresh histogram. With NoInit the
+	// histogram under observation is not read before the first Add: a
+	// LinearHist starts as NBins+2 zeros; the bin count of a LogHist is not
+	// fixed by the statement and is read from a second instance built with
+	// the same arguments.
+	var cur []uint64
+	countsRead := !c.NoInit
+	if c.NoInit && lin && c.NBins >= 1 {
+		cur = make([]uint64, c.NBins+2)
+	} else {
+		probe := h
+		if c.NoInit {
+			if p, v := mon.Call(func() {
+				if lin {
+					probe = stats.NewLinearHist(min, max, c.NBins)
+				} else {
+					probe = stats.NewLogHist(c.B, float64(c.M), max)
+				}
+			}); p {
+				w.Violate("panic-new", fmt.Sprintf("%s panicked: %v", desc, v), base)
+				return
+			}
+		}
+		var p bool
+		var pv any
+		cur, p, pv = c14Snap(probe)
+		w.Eval(op + ".Counts")
+		if p {
+			w.Violate("panic-counts", fmt.Sprintf("%s.Counts() panicked: %v", desc, pv), base)
+			return
+		}
 	}
 	n := len(cur) - 2
 	var hr *ref.HistRef
@@ -495,6 +525,7 @@ func c14JudgeHist(w *mon.W, c c14Case) {
 	}
 	w.HitIf(!lin && hr.Max >= 0x1p63, "log:top-edge-beyond-2^63")
 	w.HitIf(!lin && hr.Max >= 1e30, "log:top-edge-beyond-1e30")
+	w.HitIf(lin && max-min > 3.6e306, "lin:range-beyond-3.6e306")
 
 	// Phase of the harness's own BinToValue calls. Until the grid has run the
 	// harness does not call BinToValue at all (a histogram is normally filled
@@ -606,6 +637,17 @@ func c14JudgeHist(w *mon.W, c c14Case) {
 			w.Violate("panic-counts", fmt.Sprintf("%s.Counts() panicked after Add(%v): %v", desc, xs[to-1], pv), hist(to))
 			return false
 		}
+		if len(after) != len(cur) && !countsRead {
+			// first read of this histogram
+			if lin {
+				w.Violate("shape", fmt.Sprintf("%s has %d bins (first Counts() after %d Adds)", desc, len(after)-2, to), hist(to))
+			} else {
+				// the statement does not fix the bin count of a LogHist
+				w.Note("log:skipped-bin-count-differs-between-instances")
+			}
+			return false
+		}
+		countsRead = true
 		if len(after) != len(cur) {
 			w.Violate("shape", fmt.Sprintf("%s: Add changed the number of bins from %d to %d (values #%d..#%d)", desc, n, len(after)-2, from, to-1), hist(to))
 			return false
@@ -732,6 +774,11 @@ func c14JudgeHist(w *mon.W, c c14Case) {
 		sl = append(sl, slotted{slot, alt, exact})
 		// classes: from the value and the reference only
 		w.HitIf(!gridDone, "add-before-any-harness-bintovalue")
+		w.HitIf(!countsRead, "add-before-any-counts-read")
+		w.HitIf(!countsRead && !gridDone, "add-to-untouched-histogram")
+		w.HitIf(math.Abs(x) > 1e306, pre+"sample-beyond-1e306")
+		w.HitIf(lin && math.IsInf(x/((max-min)/float64(n))-min/((max-min)/float64(n)), 0), "lin:bin-index-overflows-float64")
+		w.HitIf(!lin && x > 0 && x < 1e-300, "log:sample-below-1e-300")
 		w.HitIf(!lin && x == 0, "log:zero-sample")
 		w.HitIf(!lin && x < 0, "log:negative-sample")
 		if slot == alt {
@@ -742,6 +789,17 @@ func c14JudgeHist(w *mon.W, c c14Case) {
 			w.HitIf(slot == 0, "first-bin")
 			w.HitIf(slot == n-1, "last-bin")
 			w.HitIf(!lin && slot >= 0 && slot < n && x >= 0x1p63, "log:binned-value-beyond-2^63")
+			if !lin && x > 0 {
+				// sharp although close: inside the former flat 1e-12 window
+				for _, i := range []int{slot, slot + 1} {
+					if i >= 0 && i <= n {
+						if e := hr.Edge(i); math.Abs(x-e) <= 1e-12*e {
+							w.Hit("log:sharp-within-1e-12-of-edge")
+							w.HitIf(x < e, "log:sharp-within-1e-12-below-edge")
+						}
+					}
+				}
+			}
 			if exact {
 				t := (x - min) / ((max - min) / float64(n))
 				if t == math.Floor(t) && t >= 0 && t <= float64(n) {
@@ -793,9 +851,13 @@ func c14JudgeHist(w *mon.W, c c14Case) {
 	if !bracket(len(xs)) {
 		return
 	}
-	w.Distinct(mon.NewHasher().S(c.Kind).F(min).F(max).I(c.NBins).I(c.B).I(c.M).Fs(xs).Fs(qs).I(gridAt).I(batch).Sum())
+	noInit := 0
+	if c.NoInit {
+		noInit = 1
+	}
+	w.Distinct(mon.NewHasher().S(c.Kind).F(min).F(max).I(c.NBins).I(c.B).I(c.M).Fs(xs).Fs(qs).I(gridAt).I(batch).I(noInit).Sum())
 	if w.WantSample() && len(xs) > 3 {
-		w.Sample(map[string]any{"hist": desc, "adds": len(xs), "under": cur[0], "over": cur[n+1], "bins": n, "queries": len(qs), "grid_after_adds": gridAt, "counts_every": batch})
+		w.Sample(map[string]any{"hist": desc, "adds": len(xs), "under": cur[0], "over": cur[n+1], "bins": n, "queries": len(qs), "grid_after_adds": gridAt, "counts_every": batch, "fresh_counts_read": !c.NoInit})
 	}
 }
 
@@ -804,7 +866,7 @@ func c14Win(hr *ref.HistRef, exact bool) string {
 		return "zero: dyadic shape, exact arithmetic"
 	}
 	if hr.Log {
-		return "1e-12 relative"
+		return fmt.Sprintf("32*2^-52*max(1,ln edge) relative: %.3g at the first, %.3g at the last edge", ref.LogWindow(hr.B, hr.M, 0), ref.LogWindow(hr.B, hr.M, hr.N))
 	}
 	return fmt.Sprintf("%.3g", hr.Win)
 }
@@ -924,6 +986,25 @@ func c14LinShape(rng *mon.Rand) (min, max float64, n int) {
 	case 2:
 		n = 2
 	}
+	if rng.Intn(12) == 0 {
+		// the top of the float64 range: bin*(max-min), (x-min)*nbins and the
+		// like overflow here, max-min itself does not
+		a := func() float64 { return math.Min(c14Pow10(rng, 306.6, 307.95), 8e307) }
+		switch rng.Intn(5) {
+		case 0:
+			min, max = -a(), a()
+		case 1:
+			min, max = -8e307, 8e307
+		case 2:
+			min, max = float64(rng.Range(-5, 5)), 2*a()
+		case 3:
+			min, max = -2*a(), float64(rng.Range(-5, 5))
+		default:
+			min = rng.Sign() * c14Pow10(rng, 300, 307.5)
+			max = min + a()
+		}
+		return
+	}
 	e := c14Pow10(rng, -3, 6)
 	if rng.Intn(5) == 0 {
 		e = c14Pow10(rng, -290, 290)
@@ -956,7 +1037,9 @@ func c14LinValues(rng *mon.Rand, min, max float64, n, count int) []float64 {
 	sgn := func() float64 { return rng.Sign() }
 	for len(xs) < count {
 		var x float64
-		switch rng.Intn(14) {
+		switch rng.Intn(15) {
+		case 14: // a size that does not depend on the range
+			x = c14Huge(rng, width)
 		case 13: // far outside: the bin index exceeds every integer type
 			if rng.Bool() {
 				x = max + r*c14Pow10(rng, 12, 60)
@@ -997,12 +1080,38 @@ func c14LinValues(rng *mon.Rand, min, max float64, n, count int) []float64 {
 		default:
 			x = max + sgn()*r*c14Pow10(rng, -16, -3)
 		}
-		if math.IsInf(x, 0) || math.IsNaN(x) || math.Abs(x) > 1e306 {
+		if math.IsInf(x, 0) || math.IsNaN(x) {
 			continue
 		}
 		xs = append(xs, x)
 	}
 	return xs
+}
+
+// c14Huge draws a value whose size does not depend on the histogram: up to
+// +-MaxFloat64, in a share of the draws just large enough for (x-min)/width
+// to exceed float64. Its reference slot is simply under or over.
+func c14Huge(rng *mon.Rand, width float64) float64 {
+	a := 0.0
+	switch rng.Intn(5) {
+	case 0:
+		a = math.MaxFloat64
+	case 1:
+		a = c14Pow10(rng, 306, 308.25)
+	case 2, 3:
+		lo := math.Max(100, math.Log10(width)+308.3)
+		if lo < 308.2 {
+			a = c14Pow10(rng, lo, math.Min(lo+3, 308.25))
+		} else {
+			a = c14Pow10(rng, 100, 306)
+		}
+	default:
+		a = c14Pow10(rng, 100, 306)
+	}
+	if !(a < math.MaxFloat64) {
+		a = math.MaxFloat64
+	}
+	return rng.Sign() * a
 }
 
 func c14DyadicShape(rng *mon.Rand) (min, max float64, n int) {
@@ -1019,7 +1128,9 @@ func c14DyadicValues(rng *mon.Rand, min, max float64, n, count int) []float64 {
 	xs := make([]float64, 0, count)
 	for len(xs) < count {
 		var x float64
-		switch rng.Intn(10) {
+		switch rng.Intn(11) {
+		case 10:
+			x = c14Huge(rng, w)
 		case 0, 1:
 			x = min + float64(rng.Range(-3, n+3))*w
 		case 2:
@@ -1083,20 +1194,25 @@ func c14LogValues(rng *mon.Rand, b, m, n, count int) []float64 {
 		var x float64
 		if rng.Intn(60) == 0 {
 			// not positive: below the first bin like any other value < 1
-			switch rng.Intn(4) {
+			switch rng.Intn(5) {
 			case 0:
 				x = 0
 			case 1:
 				x = math.Copysign(0, -1)
 			case 2:
 				x = -c14Pow10(rng, -3, 3)
+			case 3:
+				x = -rng.Pick(math.MaxFloat64, math.SmallestNonzeroFloat64, c14Pow10(rng, 300, 308.25), c14Pow10(rng, -323, -300))
 			default:
 				x = -c14Pow10(rng, -300, 300)
 			}
 			xs = append(xs, x)
 			continue
 		}
-		switch rng.Intn(13) {
+		switch rng.Intn(14) {
+		case 13: // a size that does not depend on the shape, up to the ends of float64
+			x = rng.Pick(math.MaxFloat64, c14Pow10(rng, 300, 308.25), c14Pow10(rng, 100, 306), c14Pow10(rng, 100, 306),
+				math.SmallestNonzeroFloat64, c14Pow10(rng, -323, -300), c14Pow10(rng, -306, -100))
 		case 0, 1, 2:
 			x = math.Exp(rng.Uniform(0, math.Log(top)))
 		case 3:
@@ -1109,8 +1225,14 @@ func c14LogValues(rng *mon.Rand, b, m, n, count int) []float64 {
 				x = 1 - c14Pow10(rng, -15, -1)*(1-1/ratio)
 			}
 		case 4:
-			e := math.Pow(fb, float64(rng.Intn(n+1))/fm)
-			x = e * (1 + rng.Sign()*c14Pow10(rng, -16, -3))
+			i := rng.Intn(n + 1)
+			e := math.Pow(fb, float64(i)/fm)
+			if rng.Intn(3) == 0 {
+				// just outside the edge window (1.25 to 40 half-widths off)
+				x = e * (1 + rng.Sign()*ref.LogWindow(b, m, i)*c14Pow10(rng, 0.1, 1.6))
+			} else {
+				x = e * (1 + rng.Sign()*c14Pow10(rng, -16, -3))
+			}
 		case 5:
 			x = math.Pow(fb, float64(rng.Intn(n+1))/fm)
 			switch rng.Intn(3) {
@@ -1152,6 +1274,7 @@ func c14LogValues(rng *mon.Rand, b, m, n, count int) []float64 {
 // often Counts() is read, for a stream of L values.
 func c14History(rng *mon.Rand, c *c14Case, L int) {
 	c.Grid, c.GridAt, c.Batch = true, 0, 1
+	c.NoInit = rng.Intn(3) == 0
 	switch g := rng.Intn(20); {
 	case g < 7: // on the fresh histogram
 	case g < 11:
@@ -1174,10 +1297,10 @@ func c14History(rng *mon.Rand, c *c14Case, L int) {
 }
 
 func c14Run(r *mon.Run) {
-	r.Rule("LinearHist: 1..50 bins, min<max of either sign, magnitudes 1e-290..1e290, range/scale >= 1e-6, plus dyadic shapes (power-of-two bin count and width) judged with a zero window; LogHist: bases 2..10, m 1..4, 1..50 bins for every base and m (top edge up to 1e50); streams of 0..500 values from 1e60 ranges below to 1e60 ranges above (|x|<=1e306), dense within one bin width below the first edge and around every edge, LogHist streams with about 1 in 60 values zero, -0 or negative (reference: under count); after every Add (in 3 of 10 cases: after every batch of 2..40 Adds or of the whole stream) a private copy of Counts() must differ from the previous one in exactly one counter by +1, and that counter must be the reference slot (384-bit edges, 1e-12 window: either side accepted; per batch: no counter decreases and the increments match the multiset of reference slots); BinToValue: edges, eighths grid strictly increasing, interpolation law, 12 reference points per shape, run on the fresh histogram, mid-stream, after the stream, after the final queries or never (the harness calls BinToValue for nothing else before that point); HistogramQuantile on ~20 arguments per checkpoint incl. 0, 1 and rank boundaries j/total: each call judged against both rank readings (NaN iff a reading is outside the bins, value inside the rank interval of a reading), all answers on one histogram state explained by one and the same reading (else quantile-mixed-readings), non-decreasing, counters untouched; HistogramIQR = Q(.75)-Q(.25). Harness-defined histograms: every count vector (under, <=3 bins, over each 0..3; thorough 0..4 with <=4 bins) x q=k/12 and k/7, three BinToValue shapes, call budget 4096. Non-trivial: hits a class; distinct by hash of (shape, stream, queries).")
-	r.Assume("ambiguity: a value within 1e-12*max(|min|,|max|) (linear) or 1e-12 relative (log) of a reference edge may be counted on either side; zero window only for dyadic linear shapes with exact x-min, where every float64 formula for the bin index is exact",
+	r.Rule("LinearHist: 1..50 bins, min<max of either sign, magnitudes 1e-290..1e290 and (1 shape in 12) up to +-8e307 with ranges up to 1.6e308, range/scale >= 1e-6, plus dyadic shapes (power-of-two bin count and width) judged with a zero window; LogHist: bases 2..10, m 1..4, 1..50 bins for every base and m (top edge up to 1e50); streams of 0..500 values from 1e60 ranges below to 1e60 ranges above, plus values of a size independent of the shape (+-1e100..+-MaxFloat64, for LinearHist aimed at a bin index beyond float64; LogHist also down to 5e-324), dense within one bin width below the first edge and around every edge (LogHist: also 1.25..40 window half-widths off an edge), LogHist streams with about 1 in 60 values zero, -0 or negative (reference: under count); in 1 case of 3 Counts() of the fresh histogram is not read (start state all zero by definition; LogHist bin count from a second instance) so that the first Adds run on an untouched histogram; after every Add (in 3 of 10 cases: after every batch of 2..40 Adds or of the whole stream) a private copy of Counts() must differ from the previous one in exactly one counter by +1, and that counter must be the reference slot (384-bit edges; window 1e-12*max(|min|,|max|) linear, 32*2^-52*max(1,ln edge) relative logarithmic: either side accepted; per batch: no counter decreases and the increments match the multiset of reference slots); BinToValue: edges, eighths grid strictly increasing, interpolation law, 12 reference points per shape, run on the fresh histogram, mid-stream, after the stream, after the final queries or never (the harness calls BinToValue for nothing else before that point); HistogramQuantile on ~20 arguments per checkpoint incl. 0, 1 and rank boundaries j/total: each call judged against both rank readings (NaN iff a reading is outside the bins, value inside the rank interval of a reading), all answers on one histogram state explained by one and the same reading (else quantile-mixed-readings), non-decreasing, counters untouched; HistogramIQR = Q(.75)-Q(.25). Harness-defined histograms: every count vector (under, <=3 bins, over each 0..3; thorough 0..4 with <=4 bins) x q=k/12 and k/7, three BinToValue shapes, call budget 4096. Non-trivial: hits a class; distinct by hash of (shape, stream, queries).")
+	r.Assume("ambiguity: a value within 1e-12*max(|min|,|max|) (linear) or 32*2^-52*max(1,ln edge) relative (log: the error bound of any float64 evaluation of m*log_b(x) - ln, log2, log10 based - or of a comparison with float64 edges, with a factor >= 3.5 to spare; see ref.LogWindow) of a reference edge may be counted on either side; zero window only for dyadic linear shapes with exact x-min, where every float64 formula for the bin index is exact",
 		"rank: g=floor(q*total) in exact arithmetic; also accepted: the floor of the correctly rounded float64 product, and k when q is exactly float64(k)/float64(total); the ranked sample is the one of 0-based index g throughout or g-1 throughout (per histogram state; where a reading names no sample at all - 0-based at q=1, 1-based for q*total<1 - NaN and clamping to the last/first sample both count as that reading); a numeric answer must lie in [BinToValue(bin+k/c), BinToValue(bin+(k+1)/c)] for the k-th of c samples of its bin under one of the readings",
-		"domain: finite values with |x|<=1e306 (linear) resp. |x|<=1e300 (log); range width between 1e-290 and 1e291 and at least 1e-6 of max(|min|,|max|); LogHist values finite, of either sign and zero (non-positive values are below the first bin), positive ones within [1e-300,1e300], LogHist max > 1; the bin count of a LogHist is taken from Counts() (the statement does not fix it)",
+		"domain: all finite values up to +-MaxFloat64; linear shapes with |min|,|max| <= 1.6e308 and a range width max-min between 1e-290 and 1.6e308 (finite in float64) that is at least 1e-6 of max(|min|,|max|); LogHist values finite, of either sign and zero (non-positive values are below the first bin), positive ones from 5e-324 to MaxFloat64, LogHist max > 1; the bin count of a LogHist is taken from Counts() (the statement does not fix it)",
 		"q in [0,1] only")
 	r.Gate("lin:above-by-more-than-1e20-ranges", "lin:below-first-edge-within-width", "log:below-first-edge-within-width", "under>0-quantile-in-bins", "under>0-quantile-in-bins-only",
 		"q=0", "q=1", "q=1-no-overflow", "over>0", "under>0", "exact-edge-dyadic", "top-edge-exact", "bottom-edge-exact",
@@ -1185,7 +1308,10 @@ func c14Run(r *mon.Run) {
 		"IQR-number", "IQR-NaN", "one-bin", "fifty-bins",
 		"log:top-edge-beyond-2^63", "log:top-edge-beyond-1e30", "log:binned-value-beyond-2^63", "log:zero-sample", "log:negative-sample",
 		"grid:on-fresh-histogram", "grid:mid-stream", "grid:after-stream", "grid:after-final-queries", "grid:never",
-		"add-before-any-harness-bintovalue", "counts-read-per-batch")
+		"add-before-any-harness-bintovalue", "counts-read-per-batch",
+		"add-before-any-counts-read", "add-to-untouched-histogram",
+		"lin:bin-index-overflows-float64", "lin:sample-beyond-1e306", "log:sample-beyond-1e306", "log:sample-below-1e-300",
+		"lin:range-beyond-3.6e306", "log:sharp-within-1e-12-of-edge", "log:sharp-within-1e-12-below-edge")
 	if err := ref.HistSelfTest(); err != nil {
 		r.Inconclusive("reference self-test failed: " + err.Error())
 		return
